@@ -53,7 +53,7 @@ Definition wf (d : deque) : Prop :=
   0 <= count d <= cap d /\
   ((minCap d = 0 /\ cap d = 0) \/ (pow2 (minCap d) /\ collections_queue_minCapacity <= minCap d)) /\
   (cap d = 0 -> head d = 0 /\ tail d = 0) /\
-  (0 < cap d -> pow2 (cap d) /\ minCap d <= cap d /\ 0 <= head d < cap d /\
+  (0 < cap d -> pow2 (cap d) /\ collections_queue_minCapacity <= cap d /\ 0 <= head d < cap d /\
                 tail d = (head d + count d) mod cap d).
 
 (* l is what the deque holds: l[i] = buf[(head + i) mod cap] for i < count *)
@@ -210,7 +210,7 @@ Proof.
 Qed.
 
 Lemma wf_resized d l : wf d -> zlen l = count d -> 0 < count d ->
-  pow2 (2 * count d) -> minCap d <= 2 * count d ->
+  pow2 (2 * count d) -> collections_queue_minCapacity <= 2 * count d ->
   wf (mkDeque (l ++ repeat nilv (Z.to_nat (count d))) 0 (count d) (count d) (minCap d)).
 Proof.
   intros (Hc & Hm & _ & _) Hlen Hcnt Hp2 Hmc.
@@ -774,6 +774,27 @@ Proof.
       rewrite <- (Hcong l' Hrot). exact HR'.
 Qed.
 
+(* ---------------------------------------------------------------- SetMinCapacity *)
+Lemma shl1_cases e : shl1 e > collections_queue_minCapacity -> pow2 (shl1 e).
+Proof.
+  unfold shl1, collections_queue_minCapacity.
+  destruct (Z.leb_spec 0 e); destruct (Z.ltb_spec e 63); cbn [andb].
+  - intros _. exists e. split; [lia|reflexivity].
+  - destruct (Z.eqb_spec e 63); [|lia]. intros Hgt. exfalso. assert (0 < 2 ^ 63) by (apply Z.pow_pos_nonneg; lia). lia.
+  - destruct (Z.eqb_spec e 63); lia.
+  - destruct (Z.eqb_spec e 63); lia.
+Qed.
+
+Lemma set_min_cap_spec d l e : wf d -> R d l -> wf (set_min_cap d e) /\ R (set_min_cap d e) l.
+Proof.
+  intros (Hc & Hm & Hz & Hpos) HR. split; [|exact HR].
+  unfold wf, set_min_cap, cap. cbn [buf head tail count minCap]. fold (cap d).
+  split; [exact Hc|]. split; [|split; [exact Hz|exact Hpos]].
+  right. destruct (Z.gtb_spec (shl1 e) collections_queue_minCapacity).
+  - split; [apply shl1_cases; lia|lia].
+  - split; [apply pow2_min_capacity|lia].
+Qed.
+
 (* ---------------------------------------------------------------- one call *)
 Lemma step_refines d l o : wf d -> R d l ->
   let '(d', x) := step d o in
@@ -781,7 +802,7 @@ Lemma step_refines d l o : wf d -> R d l ->
   wf d' /\ R d' l' /\ x = y.
 Proof.
   intros Hwf HR. pose proof HR as [Hlen Hp].
-  destruct o as [a|a| | | | |i|i a| |n]; cbn [step spec_step].
+  destruct o as [a|a| | | | |i|i a| |n|e]; cbn [step spec_step].
   - destruct (push_back_spec d l a Hwf HR) as (d' & -> & Hw1 & Hr2). cbn. auto.
   - destruct (push_front_spec d l a Hwf HR) as (d' & -> & Hw1 & Hr2). cbn. auto.
   - destruct l as [|x r].
@@ -835,6 +856,7 @@ Proof.
     destruct (set_spec d l i a Hwf HR ltac:(lia)) as (b & -> & Hw1 & Hr2). cbn. auto.
   - destruct (clear_spec d l Hwf HR) as (d' & -> & Hw1 & Hr2). cbn. auto.
   - destruct (rotate_spec d l n Hwf HR) as (d' & -> & Hw1 & Hr2). cbn. auto.
+  - destruct (set_min_cap_spec d l e Hwf HR) as [Hw1 Hr2]. auto.
 Qed.
 
 Lemma run_refines ops : forall d l, wf d -> R d l ->
@@ -886,7 +908,8 @@ Qed.
 
 Lemma new_deque_ok capacity minimum : capacity <= 2 ^ 62 -> minimum <= 2 ^ 62 ->
   exists d, new_deque nilv capacity minimum = Some d /\ wf d /\ R d [] /\
-            pow2 (minCap d) /\ collections_queue_minCapacity <= minCap d /\ minimum <= minCap d.
+            pow2 (minCap d) /\ collections_queue_minCapacity <= minCap d /\ minimum <= minCap d /\
+            (cap d = 0 \/ (if minCap d =? 0 then collections_queue_minCapacity else minCap d) <= cap d).
 Proof.
   intros Hc Hm. unfold new_deque.
   assert (H64 : 2 ^ 62 <= 2 ^ Z.of_nat 64) by (vm_compute; discriminate).
@@ -896,7 +919,7 @@ Proof.
   cbn [bind]. pose proof (pow2_pos m Hmp) as Hmpos.
   destruct (Z.eqb_spec capacity 0).
   - eexists. split; [reflexivity|].
-    split; [|split; [split; [reflexivity|cbn [count]; intros; lia]|auto]].
+    split; [|split; [split; [reflexivity|cbn [count]; intros; lia]|repeat split; auto; left; reflexivity]].
     unfold wf, cap. cbn [buf head tail count minCap]. change (zlen (@nil A)) with 0.
     split; [lia|]. split; [right; auto|]. split; [auto|]. intros; lia.
   - destruct (round_up_spec 64 m capacity Hmp) as (sz & -> & Hsp & Hsge & Hsc).
@@ -904,10 +927,10 @@ Proof.
     cbn [bind]. pose proof (pow2_pos sz Hsp) as Hspos.
     rewrite make_some by lia. cbn [bind].
     eexists. split; [reflexivity|].
-    split; [|split; [split; [reflexivity|cbn [count]; intros; lia]|auto]].
+    split; [|split; [split; [reflexivity|cbn [count]; intros; lia]|repeat split; auto; right; unfold cap; cbn [buf minCap]; rewrite zlen_repeat, Z2Nat.id by lia; destruct (Z.eqb_spec m 0); lia]].
     unfold wf, cap. cbn [buf head tail count minCap]. rewrite zlen_repeat, Z2Nat.id by lia.
     split; [lia|]. split; [right; auto|]. split; [lia|]. intros _.
-    split; [assumption|]. split; [assumption|]. split; [lia|].
+    split; [assumption|]. split; [lia|]. split; [lia|].
     rewrite Z.mod_0_l by lia. reflexivity.
 Qed.
 
@@ -924,67 +947,209 @@ Ltac unbind :=
   | H : None = Some _ |- _ => discriminate H
   end.
 
-Lemma resize_minCap d d' : resize nilv d = Some d' -> minCap d' = minCap d.
-Proof. unfold resize. intros H. unbind; subst d'; reflexivity. Qed.
+(* how a call may change the capacity: an unallocated deque stays so or is allocated at the
+   minimum; an allocated one keeps its minimum and its capacity grows, or shrinks to no less
+   than the minimum *)
+Definition capstep (d d' : deque) : Prop :=
+  cfg d' = cfg d /\
+  (cap d = 0 -> cap d' = 0 \/ cfg d' <= cap d') /\
+  (0 < cap d -> cap d <= cap d' \/ cfg d' <= cap d').
 
-Lemma grow_cfg d d' : grow_if_full nilv d = Some d' -> cfg d' = cfg d.
+Lemma capstep_same d d' : cap d' = cap d -> minCap d' = minCap d -> capstep d d'.
 Proof.
-  unfold grow_if_full. intros H.
-  destruct (negb (count d =? cap d)); [injection H as <-; reflexivity|].
-  destruct (cap d =? 0).
-  - unbind. subst d'. unfold cfg. cbn [minCap].
-    destruct (Z.eqb_spec (minCap d) 0) as [E|E]; [reflexivity|].
-    destruct (Z.eqb_spec (minCap d) 0); [contradiction|reflexivity].
-  - unfold cfg. rewrite (resize_minCap _ _ H). reflexivity.
+  intros E1 E2. split; [unfold cfg; rewrite E2; reflexivity|]. split; intros H; left; lia.
 Qed.
 
-Lemma shrink_cfg d d' : shrink_if_excess nilv d = Some d' -> cfg d' = cfg d.
+Lemma copy_into_length (dst src : list A) : length (copy_into dst src) = length dst.
 Proof.
-  unfold shrink_if_excess. intros H.
-  destruct ((cap d >? minCap d) && (count d * 4 =? cap d)).
-  - unfold cfg. rewrite (resize_minCap _ _ H). reflexivity.
-  - injection H as <-. reflexivity.
+  unfold copy_into. rewrite app_length, firstn_length, skipn_length. lia.
 Qed.
 
-Lemma step_cfg d o : cfg (fst (step d o)) = cfg d.
+Lemma make_length n b : make nilv n = Some b -> zlen b = n.
 Proof.
-  destruct o as [a|a| | | | |i|i a| |n]; cbn [step].
-  - unfold crash_or. destruct (push_back nilv d a) as [d'|] eqn:E; [|reflexivity]. cbn [fst].
-    unfold push_back in E. unbind. subst d'. unfold cfg at 1. cbn [minCap].
-    match goal with Hg : grow_if_full _ _ = Some _ |- _ => apply grow_cfg in Hg; exact Hg end.
-  - unfold crash_or. destruct (push_front nilv d a) as [d'|] eqn:E; [|reflexivity]. cbn [fst].
-    unfold push_front in E. unbind. subst d'. unfold cfg at 1. cbn [minCap].
-    match goal with Hg : grow_if_full _ _ = Some _ |- _ => apply grow_cfg in Hg; exact Hg end.
-  - destruct (count d <=? 0); [reflexivity|].
-    unfold crash_or. destruct (pop_front nilv d) as [[d' x]|] eqn:E; [|reflexivity]. cbn [fst].
-    unfold pop_front in E. unbind.
-    match goal with Hg : shrink_if_excess _ _ = Some _ |- _ => apply shrink_cfg in Hg end.
-    subst d'. match goal with Hg : cfg _ = cfg _ |- _ => exact Hg end.
-  - destruct (count d <=? 0); [reflexivity|].
-    unfold crash_or. destruct (pop_back nilv d) as [[d' x]|] eqn:E; [|reflexivity]. cbn [fst].
-    unfold pop_back in E. unbind.
-    match goal with Hg : shrink_if_excess _ _ = Some _ |- _ => apply shrink_cfg in Hg end.
-    subst d'. match goal with Hg : cfg _ = cfg _ |- _ => exact Hg end.
-  - destruct (count d <=? 0); [reflexivity|]. unfold crash_or. destruct (getz _ _); reflexivity.
-  - destruct (count d <=? 0); [reflexivity|]. unfold crash_or. destruct (getz _ _); reflexivity.
-  - destruct ((i <? 0) || (i >=? count d)); [reflexivity|]. unfold crash_or. destruct (getz _ _); reflexivity.
-  - destruct ((i <? 0) || (i >=? count d)); [reflexivity|]. unfold crash_or. destruct (setz _ _ _); reflexivity.
-  - unfold crash_or. destruct (clear nilv d) as [d'|] eqn:E; [|reflexivity]. cbn [fst].
-    unfold clear in E. unbind. subst d'. reflexivity.
-  - unfold crash_or. destruct (rotate nilv d n) as [d'|] eqn:E; [|reflexivity]. cbn [fst].
+  unfold make. destruct (Z.leb_spec 0 n); [|discriminate]. intros Hm. injection Hm as <-.
+  rewrite zlen_repeat. lia.
+Qed.
+
+Lemma resize_cap d d' : resize nilv d = Some d' -> cap d' = count d * 2 /\ minCap d' = minCap d.
+Proof.
+  unfold resize. intros H. destruct (make nilv (count d * 2)) as [nb|] eqn:Em; cbn [bind] in H; [|discriminate].
+  apply make_length in Em. unfold zlen in Em.
+  destruct (tail d >? head d).
+  - unbind. subst d'. unfold cap, zlen. cbn [buf minCap]. rewrite copy_into_length. auto.
+  - unbind. subst d'. unfold cap, zlen. cbn [buf minCap].
+    rewrite app_length, firstn_length, !copy_into_length, skipn_length, copy_into_length. split; [lia|reflexivity].
+Qed.
+
+Lemma setz_length (l l' : list A) i v : setz l i v = Some l' -> zlen l' = zlen l.
+Proof.
+  unfold setz. destruct ((0 <=? i) && (i <? zlen l)); [|discriminate].
+  intros H. injection H as <-. apply zlen_upd.
+Qed.
+
+Lemma grow_cap d d1 : wf d -> grow_if_full nilv d = Some d1 -> capstep d d1.
+Proof.
+  intros (Hc & Hm & Hz & Hpos) H. unfold grow_if_full in H.
+  destruct (Z.eqb_spec (count d) (cap d)) as [Hfull|Hnf]; cbn [negb] in H.
+  2:{ injection H as <-. apply capstep_same; reflexivity. }
+  destruct (Z.eqb_spec (cap d) 0) as [Hc0|Hcn].
+  - set (m := if minCap d =? 0 then collections_queue_minCapacity else minCap d) in *.
+    destruct (make nilv m) as [b|] eqn:Em; cbn [bind] in H; [|discriminate].
+    injection H as <-. apply make_length in Em.
+    assert (Ecfg : cfg (mkDeque b (head d) (tail d) (count d) m) = cfg d).
+    { unfold cfg, m. cbn [minCap]. unfold collections_queue_minCapacity.
+      destruct (Z.eqb_spec (minCap d) 0) as [E|E]; [reflexivity|].
+      destruct (Z.eqb_spec (minCap d) 0); [contradiction|reflexivity]. }
+    split; [exact Ecfg|]. split; [|lia]. intros _. right. rewrite Ecfg.
+    unfold cap. cbn [buf]. rewrite Em. unfold cfg, m. lia.
+  - destruct (resize_cap _ _ H) as [E1 E2]. assert (Hcap : 0 < cap d) by lia.
+    split; [unfold cfg; rewrite E2; reflexivity|]. split; [lia|]. intros _. left. lia.
+Qed.
+
+Lemma shrink_cap d d2 : 0 < cap d -> pow2 (cap d) -> pow2 (minCap d) ->
+  shrink_if_excess nilv d = Some d2 -> capstep d d2.
+Proof.
+  intros Hcap Hp2 Hpm H. unfold shrink_if_excess in H.
+  destruct (Z.gtb_spec (cap d) (minCap d)) as [Hgt|Hle]; cbn [andb] in H.
+  2:{ injection H as <-. apply capstep_same; reflexivity. }
+  destruct (Z.eqb_spec (count d * 4) (cap d)) as [Hq|Hnq].
+  2:{ injection H as <-. apply capstep_same; reflexivity. }
+  destruct (resize_cap _ _ H) as [E1 E2].
+  pose proof (pow2_gt_double _ _ Hp2 Hpm ltac:(lia)) as Hd.
+  split; [unfold cfg; rewrite E2; reflexivity|]. split; [lia|]. intros _. right. unfold cfg. rewrite E2.
+  pose proof (pow2_pos _ Hpm). destruct (Z.eqb_spec (minCap d) 0); lia.
+Qed.
+
+Lemma clear_loop_length fuel : forall (b b' : list A) h t m,
+  clear_loop nilv fuel b h t m = Some b' -> zlen b' = zlen b.
+Proof.
+  induction fuel as [|f IH]; intros b b' h t m H; cbn [clear_loop] in H.
+  - destruct (h =? t); [injection H as <-; reflexivity|discriminate].
+  - destruct (h =? t); [injection H as <-; reflexivity|].
+    destruct (setz b h nilv) as [b1|] eqn:E; cbn [bind] in H; [|discriminate].
+    rewrite (IH _ _ _ _ _ H). apply (setz_length _ _ _ _ E).
+Qed.
+
+Lemma rot_btf_length k : forall (b b' : list A) h t m h' t',
+  rot_back_to_front nilv k b h t m = Some (b', h', t') -> zlen b' = zlen b.
+Proof.
+  induction k as [|k IH]; intros b b' h t m h' t' H; cbn [rot_back_to_front] in H.
+  - injection H as <- _ _. reflexivity.
+  - unbind. match goal with Hr : rot_back_to_front _ _ _ _ _ _ = _ |- _ => rewrite (IH _ _ _ _ _ _ _ Hr) end.
+    repeat match goal with Hs : setz _ _ _ = Some _ |- _ => rewrite (setz_length _ _ _ _ Hs); clear Hs end.
+    reflexivity.
+Qed.
+
+Lemma rot_ftb_length k : forall (b b' : list A) h t m h' t',
+  rot_front_to_back nilv k b h t m = Some (b', h', t') -> zlen b' = zlen b.
+Proof.
+  induction k as [|k IH]; intros b b' h t m h' t' H; cbn [rot_front_to_back] in H.
+  - injection H as <- _ _. reflexivity.
+  - unbind. match goal with Hr : rot_front_to_back _ _ _ _ _ _ = _ |- _ => rewrite (IH _ _ _ _ _ _ _ Hr) end.
+    repeat match goal with Hs : setz _ _ _ = Some _ |- _ => rewrite (setz_length _ _ _ _ Hs); clear Hs end.
+    reflexivity.
+Qed.
+
+(* every call other than SetMinCapacity *)
+Lemma step_capstep d o : wf d -> (forall e, o <> SetMinCap e) -> capstep d (fst (step d o)).
+Proof.
+  intros Hwf Hns. pose proof Hwf as (Hc & Hm & Hz & Hpos).
+  assert (Hrefl : capstep d d) by (apply capstep_same; reflexivity).
+  destruct o as [a|a| | | | |i|i a| |n|e]; cbn [step].
+  - unfold crash_or. destruct (push_back nilv d a) as [d'|] eqn:E; [|exact Hrefl]. cbn [fst].
+    unfold push_back in E. unbind. subst d'.
+    match goal with Hg : grow_if_full _ _ = Some ?d1, Hs : setz _ _ _ = Some _ |- _ =>
+      destruct (grow_cap _ _ Hwf Hg) as (G0 & G1 & G2); pose proof (setz_length _ _ _ _ Hs) as Hl end.
+    unfold capstep, cfg, cap in *. cbn [buf minCap] in *. rewrite Hl. auto.
+  - unfold crash_or. destruct (push_front nilv d a) as [d'|] eqn:E; [|exact Hrefl]. cbn [fst].
+    unfold push_front in E. unbind. subst d'.
+    match goal with Hg : grow_if_full _ _ = Some ?d1, Hs : setz _ _ _ = Some _ |- _ =>
+      destruct (grow_cap _ _ Hwf Hg) as (G0 & G1 & G2); pose proof (setz_length _ _ _ _ Hs) as Hl end.
+    unfold capstep, cfg, cap in *. cbn [buf minCap] in *. rewrite Hl. auto.
+  - destruct (Z.leb_spec (count d) 0); [exact Hrefl|].
+    unfold crash_or. destruct (pop_front nilv d) as [[d' x]|] eqn:E; [|exact Hrefl]. cbn [fst].
+    unfold pop_front in E. unbind. subst d'.
+    assert (Hcap : 0 < cap d) by lia. destruct (Hpos Hcap) as (Hp2 & _).
+    match goal with Hg : shrink_if_excess _ ?dm = Some _, Hs : setz _ _ _ = Some _ |- _ =>
+      pose proof (setz_length _ _ _ _ Hs) as Hl;
+      assert (Ecm : cap dm = cap d) by (unfold cap; cbn [buf]; exact Hl);
+      pose proof (shrink_cap dm _ ltac:(rewrite Ecm; exact Hcap) ltac:(rewrite Ecm; exact Hp2)
+                    ltac:(cbn [minCap]; destruct Hm as [[? ?]|[? _]]; [lia|assumption]) Hg) as (S0 & S1 & S2) end.
+    split; [exact S0|]. split; [lia|]. intros _. rewrite Ecm in S2. exact (S2 Hcap).
+  - destruct (Z.leb_spec (count d) 0); [exact Hrefl|].
+    unfold crash_or. destruct (pop_back nilv d) as [[d' x]|] eqn:E; [|exact Hrefl]. cbn [fst].
+    unfold pop_back in E. unbind. subst d'.
+    assert (Hcap : 0 < cap d) by lia. destruct (Hpos Hcap) as (Hp2 & _).
+    match goal with Hg : shrink_if_excess _ ?dm = Some _, Hs : setz _ _ _ = Some _ |- _ =>
+      pose proof (setz_length _ _ _ _ Hs) as Hl;
+      assert (Ecm : cap dm = cap d) by (unfold cap; cbn [buf]; exact Hl);
+      pose proof (shrink_cap dm _ ltac:(rewrite Ecm; exact Hcap) ltac:(rewrite Ecm; exact Hp2)
+                    ltac:(cbn [minCap]; destruct Hm as [[? ?]|[? _]]; [lia|assumption]) Hg) as (S0 & S1 & S2) end.
+    split; [exact S0|]. split; [lia|]. intros _. rewrite Ecm in S2. exact (S2 Hcap).
+  - destruct (count d <=? 0); [exact Hrefl|]. unfold crash_or. destruct (getz _ _); exact Hrefl.
+  - destruct (count d <=? 0); [exact Hrefl|]. unfold crash_or. destruct (getz _ _); exact Hrefl.
+  - destruct ((i <? 0) || (i >=? count d)); [exact Hrefl|]. unfold crash_or. destruct (getz _ _); exact Hrefl.
+  - destruct ((i <? 0) || (i >=? count d)); [exact Hrefl|]. unfold crash_or.
+    destruct (setz _ _ _) as [b|] eqn:E; [|exact Hrefl]. cbn [fst].
+    apply capstep_same; [unfold cap; cbn [buf]; apply (setz_length _ _ _ _ E)|reflexivity].
+  - unfold crash_or. destruct (clear nilv d) as [d'|] eqn:E; [|exact Hrefl]. cbn [fst].
+    unfold clear in E. unbind. subst d'.
+    match goal with Hl : clear_loop _ _ _ _ _ _ = Some _ |- _ => apply clear_loop_length in Hl;
+      apply capstep_same; [unfold cap; cbn [buf]; exact Hl|reflexivity] end.
+  - unfold crash_or. destruct (rotate nilv d n) as [d'|] eqn:E; [|exact Hrefl]. cbn [fst].
     unfold rotate in E.
-    destruct (count d <=? 1); [injection E as <-; reflexivity|].
-    destruct (Z.rem n (count d) =? 0); [injection E as <-; reflexivity|].
-    destruct (head d =? tail d); [injection E as <-; reflexivity|].
-    unbind; destruct p as [[b h] t]; injection E as <-; reflexivity.
+    destruct (count d <=? 1); [injection E as <-; exact Hrefl|].
+    destruct (Z.rem n (count d) =? 0); [injection E as <-; exact Hrefl|].
+    destruct (head d =? tail d); [injection E as <-; apply capstep_same; reflexivity|].
+    unbind; destruct p as [[b h] t]; injection E as <-;
+      (apply capstep_same; [unfold cap; cbn [buf]|reflexivity]);
+      match goal with
+      | Hr : rot_back_to_front _ _ _ _ _ _ = _ |- _ => exact (rot_btf_length _ _ _ _ _ _ _ _ Hr)
+      | Hr : rot_front_to_back _ _ _ _ _ _ = _ |- _ => exact (rot_ftb_length _ _ _ _ _ _ _ _ Hr)
+      end.
+  - exfalso. apply (Hns e). reflexivity.
 Qed.
 
-Lemma run_cfg ops : forall d, cfg (fst (run d ops)) = cfg d.
+(* SetMinCapacity itself changes nothing but the minimum *)
+Lemma set_min_cap_cap d e :
+  cap (set_min_cap d e) = cap d /\ count (set_min_cap d e) = count d /\
+  pow2 (cfg (set_min_cap d e)) /\ collections_queue_minCapacity <= cfg (set_min_cap d e).
 Proof.
-  induction ops as [|o ops IH]; intros d; cbn [Model.run].
-  - reflexivity.
-  - pose proof (step_cfg d o) as Hs. destruct (step d o) as [d1 x]. cbn [fst] in Hs.
-    specialize (IH d1). destruct (run d1 ops) as [d2 xs]. cbn [fst] in *. congruence.
+  split; [reflexivity|]. split; [reflexivity|]. unfold cfg, set_min_cap. cbn [minCap].
+  destruct (Z.gtb_spec (shl1 e) collections_queue_minCapacity) as [Hgt|Hle].
+  - pose proof (shl1_cases e ltac:(lia)) as Hp. unfold collections_queue_minCapacity in *.
+    destruct (Z.eqb_spec (shl1 e) 0); [lia|]. split; [exact Hp|lia].
+  - unfold collections_queue_minCapacity. simpl. split; [exists 4; split; [lia|reflexivity]|lia].
+Qed.
+
+(* the capacity is at least the minimum in force (or nothing is allocated yet) *)
+Definition above (d : deque) : Prop := cap d = 0 \/ cfg d <= cap d.
+
+Lemma capstep_above d d' : capstep d d' -> above d -> above d'.
+Proof.
+  intros (C0 & C1 & C2) [H0|Hab].
+  - exact (C1 H0).
+  - destruct (Z.eq_dec (cap d) 0) as [E|E]; [exact (C1 E)|].
+    assert (Hcap : 0 < cap d) by (unfold cap in *; pose proof (zlen_nonneg (buf d)); lia).
+    destruct (C2 Hcap) as [Hge|Hge]; right; [rewrite C0; lia|exact Hge].
+Qed.
+
+Definition no_set_min (ops : list (op A)) : Prop := forall e, ~ In (SetMinCap e) ops.
+
+Lemma run_above ops : forall d l, wf d -> R d l -> no_set_min ops -> above d ->
+  above (fst (run d ops)) /\ cfg (fst (run d ops)) = cfg d.
+Proof.
+  induction ops as [|o ops IH]; intros d l Hwf HR Hns Hab; cbn [Model.run].
+  - auto.
+  - pose proof (step_refines d l o Hwf HR) as Hs.
+    assert (Hno : forall e, o <> SetMinCap e) by (intros e E; apply (Hns e); left; exact E).
+    pose proof (step_capstep d o Hwf Hno) as Hcs.
+    destruct (step d o) as [d1 x]. destruct (spec_step l o) as [l1 y]. cbn [fst] in Hcs.
+    destruct Hs as (Hwf1 & HR1 & _).
+    destruct (IH d1 l1 Hwf1 HR1 ltac:(intros e H; apply (Hns e); right; exact H)
+                 (capstep_above d d1 Hcs Hab)) as [I1 I2].
+    destruct (run d1 ops) as [d2 xs]. cbn [fst] in *. split; [exact I1|].
+    rewrite I2. exact (proj1 Hcs).
 Qed.
 
 (* ---------------------------------------------------------------- the theorems *)
@@ -1000,26 +1165,59 @@ Proof.
   - destruct HR' as [Hl _]. lia.
 Qed.
 
+(* every history, SetMinCapacity included: the capacity is 0 or a power of two, at least
+   minCapacity and at least the length; the minimum in force is a power of two >= minCapacity *)
 Theorem deque_capacity d0 ops : wf d0 -> R d0 [] ->
   let d := fst (run d0 ops) in
-  (cap d = 0 \/ (pow2 (cap d) /\ cfg d0 <= cap d /\ count d <= cap d)) /\
-  pow2 (cfg d0) /\ collections_queue_minCapacity <= cfg d0.
+  (cap d = 0 \/ (pow2 (cap d) /\ collections_queue_minCapacity <= cap d /\ count d <= cap d)) /\
+  pow2 (cfg d) /\ collections_queue_minCapacity <= cfg d.
 Proof.
   intros Hwf HR. pose proof (run_refines ops d0 [] Hwf HR) as H.
-  pose proof (run_cfg ops d0) as Hcfg.
   destruct (run d0 ops) as [d outs]. destruct (spec_run [] ops) as [l souts].
-  destruct H as ((Hc & Hm & Hz & Hpos) & _ & _). cbn [fst] in *.
+  destruct H as ((Hc & Hm & Hz & Hpos) & _ & _). cbn [fst].
   split.
   - destruct (Z.eq_dec (cap d) 0) as [E|E]; [left; assumption|right].
     assert (Hcap : 0 < cap d) by (unfold cap in *; pose proof (zlen_nonneg (buf d)); lia).
-    destruct (Hpos Hcap) as (Hp2 & Hmc & _).
-    split; [assumption|]. split; [|lia].
-    rewrite <- Hcfg. unfold cfg. destruct (Z.eqb_spec (minCap d) 0); [|assumption].
-    destruct Hm as [[_ ?]|[_ ?]]; lia.
-  - destruct Hwf as (_ & Hm0 & _). unfold cfg.
-    destruct (Z.eqb_spec (minCap d0) 0).
+    destruct (Hpos Hcap) as (Hp2 & Hmc & _). split; [assumption|]. split; [assumption|lia].
+  - unfold cfg. destruct (Z.eqb_spec (minCap d) 0).
     + split; [apply pow2_min_capacity|lia].
-    + destruct Hm0 as [[? _]|?]; [lia|assumption].
+    + destruct Hm as [[? _]|?]; [lia|assumption].
+Qed.
+
+(* the configured minimum.  A call other than SetMinCapacity keeps the minimum in force; it
+   allocates at that minimum, never shrinks below it, and keeps "capacity >= minimum" once it
+   holds.  SetMinCapacity changes only the minimum: the capacity is NOT adjusted at once, so
+   right after raising the minimum above the current capacity the deque is below it until it
+   has grown there (it cannot shrink meanwhile). *)
+Theorem deque_minimum_step d0 ops o : wf d0 -> R d0 [] ->
+  let d := fst (run d0 ops) in
+  let d' := fst (step d o) in
+  ((forall e, o <> SetMinCap e) ->
+     cfg d' = cfg d /\
+     (cap d = 0 -> cap d' = 0 \/ cfg d' <= cap d') /\
+     (cap d' < cap d -> cfg d' <= cap d') /\
+     (above d -> above d')) /\
+  (forall e, o = SetMinCap e -> cap d' = cap d /\ count d' = count d /\ contents nilv d' = contents nilv d).
+Proof.
+  intros Hwf HR. pose proof (run_refines ops d0 [] Hwf HR) as H.
+  destruct (run d0 ops) as [d outs]. destruct (spec_run [] ops) as [l souts].
+  destruct H as (Hwfd & HRd & _). cbn [fst]. split.
+  - intros Hno. pose proof (step_capstep d o Hwfd Hno) as Hcs. pose proof Hcs as (C0 & C1 & C2).
+    split; [exact C0|]. split; [exact C1|]. split; [|apply capstep_above; exact Hcs].
+    intros Hlt. destruct (Z.eq_dec (cap d) 0) as [E|E].
+    + pose proof (zlen_nonneg (buf (fst (step d o)))). unfold cap in *. lia.
+    + assert (Hcap : 0 < cap d) by (unfold cap in *; pose proof (zlen_nonneg (buf d)); lia).
+      destruct (C2 Hcap); [lia|assumption].
+  - intros e ->. cbn [step fst]. repeat split.
+Qed.
+
+(* histories without SetMinCapacity: the capacity is never below the configured minimum *)
+Theorem deque_capacity_configured d0 ops : wf d0 -> R d0 [] -> above d0 -> no_set_min ops ->
+  let d := fst (run d0 ops) in
+  cap d = 0 \/ cfg d0 <= cap d.
+Proof.
+  intros Hwf HR Hab Hns. destruct (run_above ops d0 [] Hwf HR Hns Hab) as [[H|H] E]; [left; exact H|].
+  right. rewrite <- E. exact H.
 Qed.
 
 (* no call of any history hits a run-time error (index out of range, endless loop) *)
